@@ -78,6 +78,7 @@ type drv struct {
 	rng      *rand.Rand
 	rep      *acc
 	cases    []*rcase
+	tcases   []*tcase
 	nCtx     int
 	distinct []string
 }
@@ -742,6 +743,9 @@ func (d *drv) docCase(doc *docgen.Doc, hi int, nRepeat int) {
 		if len(ds.Graphs) > 1 || d.rng.Intn(3) == 0 {
 			d.datasetCase(ds, hi, failInput{Kind: "doc-dataset", Doc: string(doc.Bytes), Hasher: hi}, 3)
 		}
+		if base.Class == "ok" && (len(ds.Graphs) > 1 || d.id%2 == 0) {
+			d.treeCase(ds, hi, failInput{Kind: "doc-dataset", Doc: string(doc.Bytes), Hasher: hi}, base.Root, 2)
+		}
 	}
 	d.metamorphic(doc, hi, base)
 	d.repeat(doc.Bytes, hi, base, nRepeat)
@@ -1103,8 +1107,9 @@ func (sh *shared) writeShards(rep *common.Report, cases []*rcase) error {
 }
 
 // merge folds the accumulators of the tasks (in task order) into the report.
-func merge(rep *common.Report, tasks []*drv) []*rcase {
+func merge(rep *common.Report, tasks []*drv) ([]*rcase, []*tcase) {
 	var cases []*rcase
+	var tcases []*tcase
 	for _, t := range tasks {
 		rep.Evaluations += t.rep.Evaluations
 		for k, n := range t.rep.counts {
@@ -1119,8 +1124,17 @@ func merge(rep *common.Report, tasks []*drv) []*rcase {
 		}
 		rep.Notes = append(rep.Notes, t.rep.notes...)
 		cases = append(cases, t.cases...)
+		tcases = append(tcases, t.tcases...)
 	}
-	return cases
+	return cases, tcases
+}
+
+func (sh *shared) writeAll(rep *common.Report, tasks []*drv) error {
+	cases, tcases := merge(rep, tasks)
+	if err := sh.writeShards(rep, cases); err != nil {
+		return err
+	}
+	return sh.writeTreeShards(rep, func(n string) { rep.Shards = append(rep.Shards, n) }, tcases, sh.cfg.OutDir)
 }
 
 // ---- replay ----
@@ -1193,6 +1207,7 @@ func (d *drv) replay(path string) error {
 		}
 		ds := buildDS(in.Dataset)
 		d.datasetCase(ds, in.Hasher, failInput{Kind: "dataset", Hasher: in.Hasher}, 4)
+		d.treeCase(ds, in.Hasher, failInput{Kind: "dataset", Hasher: in.Hasher, Dataset: dumpDS(ds)}, "", 3)
 		vs, o := mzrun.Entries(ds, d.hs[in.Hasher])
 		fmt.Printf("replay: dataset: %s\n", renderOutcome(vs, o))
 	case "doc-dataset":
@@ -1201,6 +1216,11 @@ func (d *drv) replay(path string) error {
 			return err
 		}
 		d.datasetCase(ds, in.Hasher, failInput{Kind: "doc-dataset", Doc: in.Doc, Hasher: in.Hasher}, 4)
+		root := ""
+		if mz, mo := mzrun.Merklize([]byte(in.Doc), d.opts(in.Hasher)...); mo.Class == "ok" {
+			root = mz.Root().BigInt().String()
+		}
+		d.treeCase(ds, in.Hasher, failInput{Kind: "doc-dataset", Doc: in.Doc, Hasher: in.Hasher}, root, 3)
 		vs, o := mzrun.Entries(ds, d.hs[in.Hasher])
 		fmt.Printf("replay: dataset of the document: %s\n", renderOutcome(vs, o))
 	default:
@@ -1211,7 +1231,7 @@ func (d *drv) replay(path string) error {
 
 func Run(cfg *common.Config) (*common.Report, error) {
 	rep := common.NewReport("C03")
-	rep.Correspondence = "RDF.Run.rmismatches: entries_from_rdf (RDF/Model.v) evaluated under the sorted, the reversed and a random order of the graph list vs merklize.EntriesFromRDFWithHasher on the same dataset (json-gold output of generated documents, and hand-built multi-graph datasets)"
+	rep.Correspondence = "RDF.Run.rmismatches: entries_from_rdf (RDF/Model.v) evaluated under the sorted, the reversed and a random order of the graph list vs merklize.EntriesFromRDFWithHasher on the same dataset (json-gold output of generated documents, and hand-built multi-graph datasets); RDF.OrdRun.tmismatches: root of merklize_tree (RDF/OrdTree.v; hasher and Poseidon node hashes as tables of primitive calls) under the sorted and a random graph order vs the root of EntriesFromRDFWithHasher + AddEntriesToMerkleTree (= MerklizeJSONLD's root)"
 	rep.Rule = "documents from docgen.Valid (depth 1..3) and multi-@graph-container documents x 2 hashers, each with k re-presentations, N repeated + N parallel merklizations, provided-tree runs and two replacements per leaf; hand-built datasets with 2..6 graphs (children under one key, nested graphs, graph referenced twice, reference from another graph, two inconsistencies, orphan graph, cross-graph objects, random). distinct = distinct (document bytes, hasher) pairs and distinct datasets; all have >= 1 quad, so all are non-trivial."
 	sh := &shared{cfg: cfg, loader: ctxload.New(), fr: floats.New(), hs: hasherSet()}
 	if cfg.Replay != "" {
@@ -1219,7 +1239,7 @@ func Run(cfg *common.Config) (*common.Report, error) {
 		if err := t.replay(cfg.Replay); err != nil {
 			return nil, err
 		}
-		return rep, sh.writeShards(rep, merge(rep, []*drv{t}))
+		return rep, sh.writeAll(rep, []*drv{t})
 	}
 	// generation is sequential (one PRNG), evaluation parallel (one PRNG per task)
 	var tasks []*drv
@@ -1247,6 +1267,14 @@ func Run(cfg *common.Config) (*common.Report, error) {
 		}
 		add(func(t *drv) { t.docCase(doc, hi, n) })
 	}
+	// documents that must be rejected / odd shapes: the OUTCOME must be as stable as a root
+	for i := 0; i < cfg.Pick(6, 60); i++ {
+		for _, doc := range []*docgen.Doc{g.Shared(), g.Cycle(), g.Odd()} {
+			doc := doc
+			hi := i % 2
+			add(func(t *drv) { t.docCase(doc, hi, 50) })
+		}
+	}
 	for i := 0; i < cfg.Pick(16, 250); i++ {
 		n := 50
 		if cfg.Thorough() && i < 30 {
@@ -1261,7 +1289,11 @@ func Run(cfg *common.Config) (*common.Report, error) {
 			t.rep.Count("raw:" + kind)
 			b, _ := json.Marshal(dumpDS(ds))
 			t.distinct = append(t.distinct, string(b))
-			t.datasetCase(ds, t.rng.Intn(len(t.hs)), failInput{Kind: "dataset", Note: kind}, 3)
+			hi := t.rng.Intn(len(t.hs))
+			t.datasetCase(ds, hi, failInput{Kind: "dataset", Note: kind}, 3)
+			if t.id%2 == 0 {
+				t.treeCase(ds, hi, failInput{Kind: "dataset", Note: kind, Dataset: dumpDS(ds)}, "", 2)
+			}
 		})
 	}
 	add(func(t *drv) { t.witness() })
@@ -1282,5 +1314,5 @@ func Run(cfg *common.Config) (*common.Report, error) {
 	}
 	close(next)
 	wg.Wait()
-	return rep, sh.writeShards(rep, merge(rep, tasks))
+	return rep, sh.writeAll(rep, tasks)
 }
